@@ -266,4 +266,29 @@ def rule_aspa(ctx):
                           'an encodable union yields %s' % p.outcome)
 
 
-RULES = [rule_add_roa, rule_slurm_filter, rule_toggles, rule_order, rule_entry_only, rule_aspa]
+def rule_assertions_unfiltered(ctx):
+    """SLURM assertions are ADDED after filtering: every asserted item reaches the result map, no test can skip it."""
+    b = ctx.body('payload::validation::SnapshotBuilder::insert_assertions')
+    heads = sorted(set(h for _t, h in b.back_edges()))
+    ctx.floor('K4', 'assertion loops in insert_assertions', len(heads), 2)
+    n = 0
+    for h in heads:
+        for p in enumerate_paths(b, ctx.facts, start=h):
+            cm = p.cond_map()
+            nxt = [labs for v, labs in cm.items() if re.match(r'^call:Iterator>?::next\(', v)]
+            if not nxt or nxt[0] != {'Some'}:
+                continue
+            n += 1
+            ins = p.called('re:HashMap.*::entry$')
+            ctx.check(bool(ins), 'K4', 'insert_assertions:every-assertion-inserted',
+                      'an asserted item always goes through entry() of its result map',
+                      'insert_assertions has an iteration that skips the asserted item (conditions %s): SLURM assertions must be '
+                      'added to the filtered payload unconditionally' % {k[:50]: sorted(map(str, v)) for k, v in cm.items() if 'next' not in k},
+                      loc=p.ret_site.loc() if p.ret_site else None)
+    ctx.floor('K4', 'iteration paths of insert_assertions', n, 4)
+    bad = b.calls(['slurm::LocalExceptions::drop_origin', 'slurm::LocalExceptions::drop_router_key'])
+    ctx.check(not bad, 'K4', 'insert_assertions:filters-not-consulted', 'the SLURM filters are not consulted for assertions',
+              'insert_assertions consults the SLURM filters (%s)' % [x.callee.split('::')[-1] for x in bad])
+
+
+RULES = [rule_assertions_unfiltered, rule_add_roa, rule_slurm_filter, rule_toggles, rule_order, rule_entry_only, rule_aspa]
